@@ -151,6 +151,11 @@ print(json.dumps(res))
 '''
 
 
+def native_witness(ctx):
+    """concrete search on the real code, usable when the contracts no longer apply to a changed source (vc/check.py)"""
+    return core.run_native(REPLAY, {})
+
+
 def build(ctx):
     for c in (encode_contract(), decode_contract()):
         eng = pyvc.Engine(ctx, c)
